@@ -84,6 +84,55 @@ REGISTRY.update({
                 monitors=[M.mon_run_ok("C11")], extra=X.extra_c11),
 })
 
+RUN_FILES = ["Model/InitSim.v", "Spec/StatementsRun.v"]
+
+
+def _select_eventfree(tr):
+    return not tr["scenario"].get("events")
+
+
+REGISTRY.update({
+    "C01": dict(**_p(RUN_FILES + ["Proofs/C01Aux.v", "Proofs/C01Proofs.v"], ["Props/C01.v"], ["Divide", "Phases"]),
+                theorems=["C01_step_holds", "C01_run_holds", "C01_zdist_holds"],
+                corr=ECON_OBS, corr_select=_select_eventfree,
+                monitors=[M.mon_c01], select=_select_eventfree),
+    "C02": dict(**_p(["Spec/ArioSpec.v", "Spec/StatementsSpec.v", "Proofs/C02Proofs.v"], ["Props/C02.v"], ["Phases", "Consts"]),
+                theorems=["C02_refines_holds", "C02_orders_holds", "C02_compose_holds"],
+                corr=ECON_OBS,
+                monitors=[M.mon_c03, M.mon_c04, M.mon_c05, M.mon_c06, M.mon_c14]),
+    "C12": dict(**_p(["Model/Ctor.v", "Spec/StatementsIO.v", "Corr/CheckIO.v", "Proofs/C12Proofs.v"], ["Props/C12.v"]),
+                theorems=["C12_total_holds", "C12_proportions_holds", "C12_positive_holds", "C12_product_holds", "C12_reject_holds"],
+                corr=[], monitors=[], extra=X.extra_c12, no_suite=True),
+    "C13": dict(**_p(EV_FILES + ["Spec/StatementsScale.v", "Proofs/C08Proofs.v", "Proofs/C13ScaleProofs.v"], ["Props/C13.v"], ["Ledger"]),
+                theorems=["C13_conversion_holds", "C13_scale_cap_holds", "C13_scale_opt_holds", "C13_scale_production_holds",
+                          "C13_scale_deliver_holds", "C13_scale_overprod_holds", "C13_scale_stock_holds", "C13_scale_orders_holds"],
+                corr=["reb.ledger_i", "reb.ledger_h", "rec.dmg", "rec.hdmg", "reb.dmg", "reb.hdmg"],
+                monitors=[M.mon_c08], extra=X.extra_c13),
+    "C15": dict(**_p(["Model/Ingest.v", "Spec/StatementsIO.v", "Proofs/C15Proofs.v"], ["Props/C15.v"]),
+                theorems=["C15_canon_holds", "C15_sorted_holds", "C15_canon_mat_rows_holds", "C15_canon_mat_cols_holds"],
+                corr=[], monitors=[], extra=X.extra_c15, no_suite=True),
+    "C16": dict(**_p(RUN_FILES + ["Proofs/C16Proofs.v"], ["Props/C16.v"], ["Records", "Phases"]),
+                theorems=["C16_compose_holds", "C16_prefix_holds", "C16_rows_holds", "C16_length_holds"],
+                corr=[], monitors=[], extra=X.extra_c16, no_suite=True),
+    "C17": dict(**_p(["Model/Process.v", "Proofs/C17Proofs.v"], ["Props/C17.v"], ["Defaults"]),
+                theorems=["C17_paths", "C17_shared_default_refuted"],
+                corr=[], monitors=[], extra=X.extra_c17, no_suite=True),
+    "C18": dict(**_p(["Proofs/C18Proofs.v"], ["Props/C18.v"], ["Consts"]),
+                theorems=["C18_psi1_holds", "C18_alt_noalt_holds"],
+                corr=["constraints", "orders", "production"], monitors=[], extra=X.extra_c18),
+    "C19": dict(**_p(RUN_FILES + ["Spec/StatementsShift.v", "Proofs/C19Aux.v", "Proofs/C19Proofs.v"], ["Props/C19.v"], ["Phases"]),
+                theorems=["C19_step_equivariant_holds", "C19_shift_holds"],
+                corr=["sched.status", "rec.status", "overprod"], monitors=[], extra=X.extra_c19),
+    "C20": dict(**_p(EV_FILES + RUN_FILES + ["Spec/StatementsWF.v", "Proofs/C20Aux.v", "Proofs/C20Proofs.v"], ["Props/C20.v"], ["Divide"]),
+                theorems=["C20_wf_step_holds", "C20_wf_run_holds", "C20_obs_holds"],
+                corr=ECON_OBS + ["delta.total", "reb.ledger_i", "reb.ledger_h", "rec.dmg", "rec.arb"],
+                monitors=[M.mon_finite], extra=X.extra_c20),
+})
+REGISTRY["C05"]["coq_files"] += RUN_FILES + ["Proofs/C16Proofs.v"]
+REGISTRY["C05"]["theorems"] += ["C05_nonneg_step_holds", "C05_nonneg_run_holds", "C05_stops_holds"]
+REGISTRY["C14"]["coq_files"] += EV_FILES + RUN_FILES + ["Spec/StatementsWF.v", "Proofs/C20Aux.v", "Proofs/C20Proofs.v"]
+REGISTRY["C14"]["theorems"] += ["C14_invariant_holds"]
+
 
 def branch_vector(init, st):
     """What regime a recorded step was in (for counting distinct non-trivial cases)."""
@@ -117,7 +166,10 @@ def scenario_class(trace):
 
 def evaluate(prop, spec, seed, tier, log):
     from harness import suite
-    res = suite.run_suite(seed, tier, log=log)
+    if spec.get("no_suite"):
+        res = {"traces": [], "verdicts": [], "info": [], "key": suite.repo_hash()}
+    else:
+        res = suite.run_suite(seed, tier, log=log)
     traces = res["traces"]
     scenarios = {t["scenario"]["id"]: t["scenario"] for t in traces}
     obligations = []
@@ -125,7 +177,11 @@ def evaluate(prop, spec, seed, tier, log):
     # (b) correspondence
     want = set(spec.get("corr", []))
     by_ob = {}
+    csel = spec.get("corr_select")
+    allowed = None if csel is None else {t["scenario"]["id"] for t in traces if csel(t)}
     for tag, code, detail in res["verdicts"]:
+        if allowed is not None and tag["scn"] not in allowed:
+            continue
         if tag["ob"] in want:
             by_ob.setdefault(tag["ob"], []).append((tag, code, detail))
     bad_scn = {}
